@@ -24,8 +24,8 @@ TRUSTED = [
 ]
 
 
-LEAN_TARGETS = ["QuriVerif.Props.C01", "QuriVerif.Props.Reflect", "QuriVerif.Props.ReflectLift", "QuriVerif.Props.C01Lift", "QuriVerif.Props.C01Pass", "QuriVerif.Props.C01Pipeline", "QuriVerif.Props.C01Bind"]
-REFLECT = ["QuriVerif.Props.Reflect", "QuriVerif.Props.ReflectLift", "QuriVerif.Props.C01Lift", "QuriVerif.Props.C01Pass", "QuriVerif.Props.C01Pipeline", "QuriVerif.Props.C01Bind"]
+LEAN_TARGETS = ["QuriVerif.Props.C01", "QuriVerif.Props.Reflect", "QuriVerif.Props.ReflectLift", "QuriVerif.Props.C01Lift", "QuriVerif.Props.C01Pass", "QuriVerif.Props.C01Pipeline", "QuriVerif.Props.C01Bind", "QuriVerif.Props.C01Phase"]
+REFLECT = ["QuriVerif.Props.Reflect", "QuriVerif.Props.ReflectLift", "QuriVerif.Props.C01Lift", "QuriVerif.Props.C01Pass", "QuriVerif.Props.C01Pipeline", "QuriVerif.Props.C01Bind", "QuriVerif.Props.C01Phase"]
 LEAN_TARGETS_THOROUGH = ["QuriVerif.Props.C01Deep"]
 
 
@@ -2490,6 +2490,7 @@ def run(ctx: Ctx, replay=None) -> int:
         priv = {"circ_inv", "pipe_runs", "pipe_len", "circ2_inv", "pipe2_runs", "pipe2_kinds", "circ3_inv", "pipe3_runs", "pipe3_len", "circ4_inv", "pipe4_runs", "circ5_inv", "gsA_runs", "gsB_runs", "gsA_len", "gsB_len"}
         names += [f"QV.Props.C01Pipeline.{n}" for _, n, _ in ctx.count_obligations(REFLECT[4:5]) if n not in priv]
         names += [f"QV.Props.C01Bind.{n}" for _, n, _ in ctx.count_obligations(REFLECT[5:6])]
+        names += [f"QV.Props.C01Phase.{n}" for _, n, _ in ctx.count_obligations(REFLECT[6:7])]
         ctx.audit(names, ["QuriVerif.Props.C01"] + REFLECT)
         with ctx.timed("correspond"):
             check_factories(ctx)
